@@ -223,6 +223,13 @@ func runC09(r *mon.Run) {
 		}
 		same(&fixedReader{data: entropy, chunk: 1}, "1-byte-at-a-time")
 		w.Class("c09:reader:1-byte")
+		// a reader that answers (0, nil) many times before every chunk
+		same(&fixedReader{data: entropy, chunk: gen.Pick(rng, 0, 1, 11, 31), stalls: gen.Pick(rng, 1, 3, 99, 100, 101, 150, 300, 1000)}, "stalling ((0, nil) reads before every chunk)")
+		w.Class("c09:reader:stalls")
+		if i%4 == 1 {
+			same(&fixedReader{data: entropy, chunk: gen.Pick(rng, 0, 16), async: true}, "asynchronously filling (buffer written by another goroutine while the caller's stack moves)")
+			w.Class("c09:reader:async-fill+stack-move")
+		}
 		// a reader that scribbles over the spare capacity behind the bytes it was asked for
 		// (p[len(p):cap(p)]): the nonce is a function of the key, the digest and the 32 entropy
 		// bytes - not of whatever else the signer keeps behind its entropy buffer
